@@ -29,6 +29,9 @@ def check(chk, repo):
     chk.explanation = EXPLANATION
     rep = Rep(chk, repo)
     check_heap(rep, repo, "")
+    from ..rules_premise import check_constants, check_transparent_properties
+    check_transparent_properties(rep, repo, "PREMISE-")
+    check_constants(rep, repo, "PREMISE-")
     sites = 0
     seen = set()
     for cls, meth, floor in CLIENTS:
